@@ -1237,3 +1237,69 @@ def fpatable(F, R):
                 ok = ok and reads_active and any('HANDLED_FALSE' in x for x in rets)
                 R.ob('C13.fpa', ok, {'func': f.q})
                 if not ok: R.find('C13.fpa', f, 'dispatch', 'function_pointer_array dispatch must call the cell of the region\'s active state with (sm, region_id, event) and answer HANDLED_FALSE for an empty cell')
+
+@rule('chainexec')
+def chainexec(F, R):
+    """C01.chain: a conflict chain tries its candidates in the order of the sequence it was built with (the plan rules compare that
+    sequence with the declarations): back / back11 execute_helper::execute<Sequence> runs the FIRST element's executor and recurses on
+    the sequence without it; backmp11 transition_chain::execute hands its own Transitions list to mp_for_each_until and every closure
+    instance runs the executor of its own transition."""
+    from rules_core import backend_of
+    for f in F.funcs:
+        be = backend_of(f)
+        if be is None or not f.blocks: continue
+        if be in ('back', 'back11') and f.cls == 'execute_helper' and f.n == 'execute' and 'chain_row' in f.classes:
+            ta = f.targs()
+            L = type_list(str(ta[0])) if ta else None
+            if not L: continue          # the empty-sequence overload
+            R.seen(f); R.anchor('chain-exec:' + be)
+            calls = [(i, n) for i, n in f.calls() if n.get('n') == 'execute']
+            row = [n for i, n in calls if n.get('pc') != 'execute_helper']
+            rec = [n for i, n in calls if n.get('pc') == 'execute_helper']
+            why = []
+            if len(row) != 1 or strip_cvref(F.strs[row[0]['pt']]) != strip_cvref(L[0]): why.append('the executor tried here is not the first element of the sequence')
+            if len(rec) != 1: why.append('%d recursive calls' % len(rec))
+            else:
+                rta = rec[0].get('ta') or []
+                RL = type_list(F.strs[rta[0]['t']]) if rta and isinstance(rta[0], dict) and 't' in rta[0] else None
+                if RL is None or [strip_cvref(x) for x in RL] != [strip_cvref(x) for x in L[1:]]: why.append('the recursion does not continue with the rest of the sequence in order')
+            order = f.linear_nodes()
+            R.ob('C01.chain', not why, {'func': f.q, 'candidates': len(L)})
+            if why: R.find('C01.chain', f, 'order', 'conflict chain of %d candidates: %s (table priority is lost)' % (len(L), '; '.join(why)))
+        if be == 'backmp11' and f.cls == 'transition_chain' and f.n == 'execute' and f.file.endswith('transition_table.hpp'):
+            ca = f.cls_args('transition_chain') or []
+            R.seen(f); R.anchor('chain-exec:backmp11')
+            fe = [n for i, n in f.calls() if n.get('n') in ('mp_for_each_until', 'mp_for_each')]
+            ok = len(fe) == 1 and len(ca) >= 3
+            if ok:
+                t0 = fe[0].get('ta', [{}])[0]
+                ok = isinstance(t0, dict) and 't' in t0 and [strip_cvref(x) for x in (type_list(F.strs[t0['t']]) or [])] == [strip_cvref(x) for x in (type_list(str(ca[2])) or ['?'])] and fe[0]['n'] == 'mp_for_each_until'
+            R.ob('C01.chain', ok, {'func': f.q})
+            if not ok: R.find('C01.chain', f, 'order', 'transition_chain::execute must walk its own Transitions list in order with mp_for_each_until (stop at the first taken / deferred candidate)')
+        # run-time chains of the compile-time-favouring policies: cells are tried in container order, front to back (the plan rules
+        # check the order of insertion)
+        fct = None
+        if be == 'back' and f.file.endswith('back/favor_compile_time.hpp') and f.cls == 'chain_row' and f.n == 'operator()': fct = 'one_state'
+        if be == 'backmp11' and f.file.endswith('backmp11/favor_compile_time.hpp') and f.cls in ('transition_chain', 'internal_transition_chain') and f.n == 'execute': fct = 'm_transition_cells'
+        if fct:
+            R.seen(f); R.anchor('chain-exec:%s-fct' % be)
+            names = [n.get('n') for i, n in f.calls() if n.get('obj') and f.base_member(n['obj']) == fct]
+            fwd = ('begin' in names or 'cbegin' in names) and ('end' in names or 'cend' in names)
+            back_ = [x for x in names if x in ('rbegin', 'rend', 'crbegin', 'crend')]
+            dec = any(n and n['k'] in ('un', 'call') and n.get('op') in ('--', 'pre--', 'post--') for n in f.nodes)
+            ok = fwd and not back_ and not dec
+            R.ob('C01.chain', ok, {'func': f.q, 'container': fct, 'iterator_calls': sorted(set(x for x in names if x))})
+            if not ok: R.find('C01.chain', f, 'direction', 'the run-time chain must be walked front to back over %s (found iterator calls %s%s): the candidates would be tried in reverse table priority' % (fct, sorted(set(x for x in names if x)), ', decrement' if dec else ''))
+        ctx = f.d['ctx']
+        if be == 'backmp11' and f.n == 'operator()' and len(ctx) >= 3 and ctx[-2].get('f') == 'execute' and ctx[-3].get('c') == 'transition_chain' and 'lck' in ctx[-1] and f.file.endswith('transition_table.hpp'):
+            pt = f.param_types()
+            if not pt: continue
+            T = strip_cvref(pt[0])
+            R.seen(f); R.anchor('chain-step:backmp11')
+            ex = [n for i, n in f.calls() if n.get('n') == 'execute']
+            ok = len(ex) == 1 and strip_cvref(F.strs[ex[0]['pt']]) == T
+            # stops (returns true) exactly when the handled / deferred bits are set
+            rets = [f.eval_const(n['e']) for n in f.nodes if n and n['k'] == 'ret' and n.get('e')]
+            ok = ok and sorted(x for x in rets if x is not None) == [0, 1]
+            R.ob('C01.chain', ok, {'func': f.q, 'transition': Facts.short(T, 70)})
+            if not ok: R.find('C01.chain', f, 'step', 'a chain step must run the executor of its own transition once and stop the chain exactly when it was taken or deferred', instance=Facts.short(T, 150))
